@@ -69,6 +69,7 @@ def run(ck):
     subdivmodel.run(ck, quick)
     d = 'SPECIFICATION Spec\nCONSTANTS Q = %d\n Fams = {"%s"}\nINVARIANT MeetExactly\nINVARIANT Monotone\nINVARIANT TransversalOK\nINVARIANT Separated\nINVARIANT Dump\n'
     skipped = 0
+    nsmall = 0
     for q, n in ((3, 170 if quick else 1500), (2, 80 if quick else 500)):
         r = ck.tlc('Crossings', d % (q, 'cross'), workers=1, coverage=False, timeout=1200)
         cases = r.cases
@@ -86,6 +87,13 @@ def run(ck):
             linepair = pr['n1'] == 1 or pr['n2'] == 1
             for x, y, u, v in ((a, b, t1, t2), (b, a, t2, t1)):
                 report_case(ck, tag, x, y, [(u, v, x.point(u))], {'pr': pr, 'q': q}, exact_count=1 if linepair else None)
+            if not linepair and q == 3 and (nsmall < (12 if quick else 80)):
+                # Bezier x Bezier drawn at a hundredth of the size: the parameters of the crossing do not change (the subdivision works with an absolute
+                # tolerance, 1e-12 on the box area - still far below this scale)
+                nsmall += 1
+                sa, sb = a.scaled(0.01), b.scaled(0.01)
+                ck.case(fp=('pair-small', q, str(pr)), nontrivial=True)
+                report_case(ck, tag + ' scaled 0.01', sa, sb, [(t1, t2, sa.point(t1))], {'pr': pr, 'q': q, 'scale': 0.01})
             if linepair:
                 fa, fb = a.scaled(1e-3).translated(4000 + 3000j), b.scaled(1e-3).translated(4000 + 3000j)
                 ck.case(fp=('pair-far', q, str(pr)), nontrivial=True)
